@@ -57,6 +57,8 @@ CallStep(st, fr) ==
          THEN Push(newprobe(0), <<Sub(nd.c, pn), F0("dropv")>>)
          ELSE IF nd.b = 5 /\ t = "N" /\ ~nd.g       \* reaction 5: on the first item send one more item into hot subject 1 (a feedback loop)
          THEN Push([st1 EXCEPT !.nodes[n].g = TRUE], SubjEmit(st1, 1, "N", I(W(v) + 10)))
+         ELSE IF nd.b = 6 /\ t = "N" /\ ~nd.g       \* reaction 6: on the first item send an item into hot subject 2 (e.g. the notifier)
+         THEN Push([st1 EXCEPT !.nodes[n].g = TRUE], SubjEmit(st1, 2, "N", I(W(v) + 20)))
          ELSE IF nd.b = 4 /\ t = "N"                \* reaction 4: peek() the BehaviorSubject from inside the callback, record what it says
          THEN LET vn == VNode(st1, PA(nd.c)) IN
               IF RHeld(st1.nodes[vn]) THEN Busy(st1)
@@ -378,7 +380,9 @@ Step(st) ==
          IF fin = 2 THEN Busy(s0)
          ELSE IF fin = 1 \/ i > Len(items) THEN Push(s0, <<CallC(fr.n)>>)
          ELSE Push(s0, (IF PB(fr.x) > 0 THEN <<Bump(PB(fr.x))>> ELSE <<>>)
+                       \o (IF PB(fr.x) = 7 THEN <<Fr("pulled", 0, "", I(i), 0)>> ELSE <<>>)       \* the counting iterator of the harness
                        \o <<CallN(fr.n, items[i]), Fr("iter", fr.n, "", I(i + 1), fr.x)>>)
+    [] f = "pulled" -> [s0 EXCEPT !.log = Append(@, LogEntry(0, "I", fr.v, s0.now))]
     (* CompleteStatus (statcell node: n = flag, g = a waker is registered, b = a wake-up is pending) *)
     [] f = "setstatus" ->         \* flag.store(..); waker.wake(): wakes only a waker that is registered
          [s0 EXCEPT !.nodes[fr.n].n = fr.x, !.nodes[fr.n].b = IF s0.nodes[fr.n].g THEN 1 ELSE @, !.nodes[fr.n].g = FALSE]
